@@ -101,19 +101,19 @@ def runIns (f : LF) (vars : List VarH) (ins : Sx) : Option (Res (LF × List VarH
       let args : L ← dec args
       pure (do
         let av ← args.mapM (getVar vars)
-        let (f', rs) ← varOperation f av (List.replicate r 0) lab
+        let (f', rs) ← varOperation f av ((List.range r).map (fun k => (lab + k) % 3)) lab
         pure (f', vars ++ rs))
   | .l [.s "fnop", .n lab, args] => do
       let args : L ← dec args
       pure (do
         let av ← args.mapM (getVar vars)
-        let (f', rs) ← varOperation f av [0] lab
+        let (f', rs) ← varOperation f av [lab % 3] lab
         pure (f', vars ++ rs))
   | _ => none
 
 def varBuild (nIn : Nat) (prog : List Sx) (outs : L) (leak : Bool) : Option (Res (Bool × LF)) := do
-  let (f0, inputs) := (List.range nIn).foldl (fun (acc : LF × List VarH) _ =>
-    let (f', v) := varNew acc.1 0
+  let (f0, inputs) := (List.range nIn).foldl (fun (acc : LF × List VarH) i =>
+    let (f', v) := varNew acc.1 (i % 3)
     (f', acc.2 ++ [v])) ((LOHG.empty : LF), [])
   let step := fun (acc : Option (Res (LF × List VarH))) (ins : Sx) =>
     match acc with
